@@ -499,10 +499,32 @@ func ruleC07OrderExact(p *Prog, r *Report) {
 					continue
 				}
 				n++
-				guarded := isInteger != nil && Guarded(in, func(c ssa.Value, pol bool) bool {
+				notBoth := func(c ssa.Value, pol bool) bool {
 					cc, ok := c.(*ssa.Call)
 					return ok && !pol && cc.Common().StaticCallee() == isInteger
-				})
+				}
+				// … here, or — the comparison through Integer() being a helper of its own — at every call of that helper
+				var under func(at ssa.Instruction, d int) bool
+				under = func(at ssa.Instruction, d int) bool {
+					if Guarded(at, notBoth) {
+						return true
+					}
+					h := at.Parent()
+					if h == ev || d > 2 || h.Parent() != nil || (h.Object() != nil && h.Object().Exported()) || !p.staticOnly(h, nil) {
+						return false
+					}
+					node := p.CG.Nodes[h]
+					if node == nil || len(node.In) == 0 {
+						return false
+					}
+					for _, e := range node.In {
+						if e.Site == nil || !under(e.Site.(ssa.Instruction), d+1) {
+							return false
+						}
+					}
+					return true
+				}
+				guarded := isInteger != nil && under(in, 0)
 				if !guarded {
 					bad++
 					at = in
